@@ -70,7 +70,7 @@ def run_checks(wt, ids, tier="quick"):
 def confirm(src, pid, k, checks):
     d = os.path.join(src, pid, f"m{k}")
     meta, dpath, drun = demo_info(d)
-    wt = f"/tmp/wt-seed-{pid}-m{k}"
+    wt = f"/tmp/wt-seed-{pid}-{os.environ.get('SEED_TAG', '')}m{k}"
     out = {"property": pid, "mutant": f"m{k}", "summary": meta.get("summary"), "breaks": meta.get("breaks"), "files": meta.get("files"),
            "functions": meta.get("functions"), "base_commit": sh(f"git -C {REPO} rev-parse --short HEAD")[1].strip()}
     worktree(wt)
@@ -114,7 +114,7 @@ def confirm(src, pid, k, checks):
     finally:
         drop(wt)
     if out.get("confirmed"):
-        dst = os.path.join(VERIF, "seeded", f"{pid}-m{k}")
+        dst = os.path.join(VERIF, "seeded", f"{pid}-{os.environ.get('SEED_TAG', '')}m{k}")
         os.makedirs(os.path.join(dst, "demo"), exist_ok=True)
         shutil.copy(os.path.join(d, "patch.diff"), dst)
         for f in ("zz_demo_test.go", "DEMO.txt"):
